@@ -952,6 +952,16 @@ func genStmt(r *rng, noShare bool) string {
 	case 3:
 		return "func " + pick(r, []string{"g1", "g2"}) + "(n) { return n + " + pick(r, []string{"1", "d6", "v1", "2d4", "this.k"}) + " }"
 	case 4:
+		if r.chance(1, 3) {
+			// functions that call themselves / each other: a restored function is compiled on its first call, which may nest
+			return pick(r, []string{
+				"func r1(n) { if n < 2 { return n }; return r1(n-1) + r1(n-2) }",
+				"func r2(n) { if n <= 0 { return 'landed' }; return r2(n-1) }",
+				"func e1(n) { if n == 0 { return 1 }; return o1(n-1) }; func o1(n) { if n == 0 { return 0 }; return e1(n-1) }",
+				"func r3(n) { if n <= 0 { return d6 }; return r3(n-1) + d4 }",
+				"func r4(n) { &c4 = n + d2; if n <= 0 { return c4 }; return r4(n-1) + c4 }",
+			})
+		}
 		return "func " + pick(r, []string{"g1", "g2", "h1"}) + "() { " + pick(r, []string{"return 2d6", "return [1,2,3].rand()", "v1 = 7; return v1", "return d20 + d20", "return [1,2,3,4].shuffle()", "if d2 == 1 { return 'one' }; return 'two'"}) + " }"
 	case 5:
 		return "&" + pick(r, []string{"w1", "w2"}) + " = " + pick(r, []string{"d6 + 1", "this.x + d4", "v1", "2d6k1", "[d4, d4]", "this.x"})
@@ -988,6 +998,7 @@ var followUps = []string{
 	"v1", "v2", "v3", "m1", "m2", "w1", "w2", "g1", "g2", "h1", "g1(1)", "g2(3)", "h1()", "g1(1) + g1(2)", "w1 + w1", "&w1.x", "w1 + d6", "2d6 + g1(1)", "m2.f(1)", "m2.c", "m2.l[0]()", "m2.l[0](1)",
 	"[v1, v2, v3]", "v1 == v2", "v3[0]", "m1.k", "m1.x", "m1.keys().len()", "v1.len()", "v1.sum()", "[1,2,3,4,5].shuffle()", "toStr(v1) + toStr(m1.k)", "repr(g1)", "repr(w1)", "loadRaw('w1')", "loadRaw('w1').x",
 	"loadRaw('w2').compute()", "v1 = g1(5); v1", "m1.q = h1(); m1", "g1 = 5; g1", "func g1(n) { return n * 2 }; g1(4)", "&w1 = 3; w1", "w1.x", "h1() + h1()", "i = 0; s = 0; while i < 3 { s = s + g1(i); i = i + 1 }; s",
+	"r1(10)", "r1(6) + r1(3)", "r2(3)", "e1(6)", "o1(5)", "r3(4)", "r4(3)", "r2(2) + toStr(e1(3))", "r1(5); r1(5)",
 	"typeId(g1)", "typeId(w1)", "dir(v1).len()", "v1.push(g1); v1.len()", "v1.rand()", "d20", "`x{g1(1)}y{w1}`",
 }
 
@@ -1148,6 +1159,28 @@ func snapshotAt(cfg vmCfg, hi, lo uint64, prog []string, p int, follow []string,
 		oa, ob := observe(a, fu), observe(b, fu)
 		follows++
 		if oa != ob {
+			// is the follow-up deterministic at all?  (text of a multi-entry dict: Go map order, KF-C06-map-order.)  Repeat both
+			// sides from scratch: a side that shows two different observations, or observations shared between the sides, says
+			// nothing about restore
+			seenA, seenB := map[any]bool{oa: true}, map[any]bool{ob: true}
+			for rep := 0; rep < 12 && len(seenA) == 1 && len(seenB) == 1; rep++ {
+				a2 := newVM(cfg, hi, lo, true)
+				for q := 0; q < p; q++ {
+					runQuiet(a2, prog[q])
+				}
+				b2 := newVM(cfg, 0, 0, true)
+				_ = b2.RandSrc.UnmarshalBinary(seedBytes)
+				b2.Attrs = &ds.ValueMap{}
+				_ = json.Unmarshal(text, b2.Attrs)
+				seenA[observe(a2, fu)] = true
+				seenB[observe(b2, fu)] = true
+			}
+			if len(seenA) > 1 || len(seenB) > 1 {
+				t := base
+				t.Stage, t.Follow = "nondeterministic-follow", fu
+				report(t)
+				continue
+			}
 			t := base
 			t.Stage, t.Follow, t.Orig, t.Rest = "follow", fu, oa, ob
 			if hasNative(origDump) {
@@ -1455,7 +1488,7 @@ func init() {
 			cfg := vmCfg{OpLimit: 50000}
 			s, f := transCase(r, cfg, 3+r.intn(6), func(t transOut) {
 				byStage[t.Stage]++
-				if t.Stage == "nondeterministic-replay" {
+				if t.Stage == "nondeterministic-replay" || t.Stage == "nondeterministic-follow" {
 					if byStage[t.Stage] <= 5 {
 						emit(t)
 					}
